@@ -55,10 +55,15 @@ class SchemaOracleError(Exception):
     pass
 
 
+_META = {}
+
+
 def meta_errors(schema, dialect):
     """violations of the dialect's meta-schema"""
-    cls = VALIDATORS[dialect]
-    v = cls(cls.META_SCHEMA)
+    v = _META.get(dialect)
+    if v is None:
+        cls = VALIDATORS[dialect]
+        v = _META[dialect] = cls(cls.META_SCHEMA)
     return [f"{'/'.join(map(str, e.absolute_path))}: {e.message}"[:200] for e in v.iter_errors(without_schema_uri(schema))][:5]
 
 
